@@ -817,8 +817,8 @@ func relevantAll(facts []*Term, goal *Term, rounds, max int) []*Term {
 // stageTimeout: the early (cheaper) solver stages get at least 15 s so that a loaded machine does
 // not push a normally 5-8 s query into the later, harder encodings
 func stageTimeout(d time.Duration) time.Duration {
-	if d < 25*time.Second {
-		return 25 * time.Second
+	if d < 75*time.Second {
+		return 75 * time.Second
 	}
 	return d
 }
